@@ -13,239 +13,239 @@ variable {K : Type} [Field K] [LinearOrder K] [IsStrictOrderedRing K]
 
 /-- Point.lerp -/
 
-def point_lerp_x (px py qx qy t : K) : K :=
+@[gen_def] def point_lerp_x (px py qx qy t : K) : K :=
   ((px * ((1 : K) - t)) + (qx * t))
 
-def point_lerp_y (px py qx qy t : K) : K :=
+@[gen_def] def point_lerp_y (px py qx qy t : K) : K :=
   ((py * ((1 : K) - t)) + (qy * t))
 
-def point_lerp (px py qx qy t : K) : List K :=
+@[gen_def] def point_lerp (px py qx qy t : K) : List K :=
   [point_lerp_x px py qx qy t, point_lerp_y px py qx qy t]
 
 
 /-- Line.pointAtTime -/
 
-def line_pointAtTime_x (p0x p0y p1x p1y t : K) : K :=
+@[gen_def] def line_pointAtTime_x (p0x p0y p1x p1y t : K) : K :=
   ((p0x * ((1 : K) - t)) + (p1x * t))
 
-def line_pointAtTime_y (p0x p0y p1x p1y t : K) : K :=
+@[gen_def] def line_pointAtTime_y (p0x p0y p1x p1y t : K) : K :=
   ((p0y * ((1 : K) - t)) + (p1y * t))
 
-def line_pointAtTime (p0x p0y p1x p1y t : K) : List K :=
+@[gen_def] def line_pointAtTime (p0x p0y p1x p1y t : K) : List K :=
   [line_pointAtTime_x p0x p0y p1x p1y t, line_pointAtTime_y p0x p0y p1x p1y t]
 
 
 /-- QuadraticBezier.pointAtTime -/
 
-def quad_pointAtTime_x (p0x p0y p1x p1y p2x p2y t : K) : K :=
+@[gen_def] def quad_pointAtTime_x (p0x p0y p1x p1y p2x p2y t : K) : K :=
   let v0 := ((1 : K) - t)
   ((((v0 * v0) * p0x) + ((((2 : K) * v0) * t) * p1x)) + ((t * t) * p2x))
 
-def quad_pointAtTime_y (p0x p0y p1x p1y p2x p2y t : K) : K :=
+@[gen_def] def quad_pointAtTime_y (p0x p0y p1x p1y p2x p2y t : K) : K :=
   let v0 := ((1 : K) - t)
   ((((v0 * v0) * p0y) + ((((2 : K) * v0) * t) * p1y)) + ((t * t) * p2y))
 
-def quad_pointAtTime (p0x p0y p1x p1y p2x p2y t : K) : List K :=
+@[gen_def] def quad_pointAtTime (p0x p0y p1x p1y p2x p2y t : K) : List K :=
   [quad_pointAtTime_x p0x p0y p1x p1y p2x p2y t, quad_pointAtTime_y p0x p0y p1x p1y p2x p2y t]
 
 
 /-- CubicBezier.pointAtTime -/
 
-def cubic_pointAtTime_x (p0x p0y p1x p1y p2x p2y p3x p3y t : K) : K :=
+@[gen_def] def cubic_pointAtTime_x (p0x p0y p1x p1y p2x p2y p3x p3y t : K) : K :=
   let v0 := ((1 : K) - t)
   let v1 := ((3 : K) * v0)
   ((((((v0 * v0) * v0) * p0x) + (((v1 * v0) * t) * p1x)) + (((v1 * t) * t) * p2x)) + (((t * t) * t) * p3x))
 
-def cubic_pointAtTime_y (p0x p0y p1x p1y p2x p2y p3x p3y t : K) : K :=
+@[gen_def] def cubic_pointAtTime_y (p0x p0y p1x p1y p2x p2y p3x p3y t : K) : K :=
   let v0 := ((1 : K) - t)
   let v1 := ((3 : K) * v0)
   ((((((v0 * v0) * v0) * p0y) + (((v1 * v0) * t) * p1y)) + (((v1 * t) * t) * p2y)) + (((t * t) * t) * p3y))
 
-def cubic_pointAtTime (p0x p0y p1x p1y p2x p2y p3x p3y t : K) : List K :=
+@[gen_def] def cubic_pointAtTime (p0x p0y p1x p1y p2x p2y p3x p3y t : K) : List K :=
   [cubic_pointAtTime_x p0x p0y p1x p1y p2x p2y p3x p3y t, cubic_pointAtTime_y p0x p0y p1x p1y p2x p2y p3x p3y t]
 
 
 /-- Line.splitAtTime -/
 
-def line_splitAtTime_l0x (p0x p0y p1x p1y t : K) : K :=
+@[gen_def] def line_splitAtTime_l0x (p0x p0y p1x p1y t : K) : K :=
   p0x
 
-def line_splitAtTime_l0y (p0x p0y p1x p1y t : K) : K :=
+@[gen_def] def line_splitAtTime_l0y (p0x p0y p1x p1y t : K) : K :=
   p0y
 
-def line_splitAtTime_l1x (p0x p0y p1x p1y t : K) : K :=
+@[gen_def] def line_splitAtTime_l1x (p0x p0y p1x p1y t : K) : K :=
   ((p0x * ((1 : K) - t)) + (p1x * t))
 
-def line_splitAtTime_l1y (p0x p0y p1x p1y t : K) : K :=
+@[gen_def] def line_splitAtTime_l1y (p0x p0y p1x p1y t : K) : K :=
   ((p0y * ((1 : K) - t)) + (p1y * t))
 
-def line_splitAtTime_r0x (p0x p0y p1x p1y t : K) : K :=
+@[gen_def] def line_splitAtTime_r0x (p0x p0y p1x p1y t : K) : K :=
   ((p0x * ((1 : K) - t)) + (p1x * t))
 
-def line_splitAtTime_r0y (p0x p0y p1x p1y t : K) : K :=
+@[gen_def] def line_splitAtTime_r0y (p0x p0y p1x p1y t : K) : K :=
   ((p0y * ((1 : K) - t)) + (p1y * t))
 
-def line_splitAtTime_r1x (p0x p0y p1x p1y t : K) : K :=
+@[gen_def] def line_splitAtTime_r1x (p0x p0y p1x p1y t : K) : K :=
   p1x
 
-def line_splitAtTime_r1y (p0x p0y p1x p1y t : K) : K :=
+@[gen_def] def line_splitAtTime_r1y (p0x p0y p1x p1y t : K) : K :=
   p1y
 
-def line_splitAtTime (p0x p0y p1x p1y t : K) : List K :=
+@[gen_def] def line_splitAtTime (p0x p0y p1x p1y t : K) : List K :=
   [line_splitAtTime_l0x p0x p0y p1x p1y t, line_splitAtTime_l0y p0x p0y p1x p1y t, line_splitAtTime_l1x p0x p0y p1x p1y t, line_splitAtTime_l1y p0x p0y p1x p1y t, line_splitAtTime_r0x p0x p0y p1x p1y t, line_splitAtTime_r0y p0x p0y p1x p1y t, line_splitAtTime_r1x p0x p0y p1x p1y t, line_splitAtTime_r1y p0x p0y p1x p1y t]
 
 
 /-- QuadraticBezier.splitAtTime -/
 
-def quad_splitAtTime_l0x (p0x p0y p1x p1y p2x p2y t : K) : K :=
+@[gen_def] def quad_splitAtTime_l0x (p0x p0y p1x p1y p2x p2y t : K) : K :=
   p0x
 
-def quad_splitAtTime_l0y (p0x p0y p1x p1y p2x p2y t : K) : K :=
+@[gen_def] def quad_splitAtTime_l0y (p0x p0y p1x p1y p2x p2y t : K) : K :=
   p0y
 
-def quad_splitAtTime_l1x (p0x p0y p1x p1y p2x p2y t : K) : K :=
+@[gen_def] def quad_splitAtTime_l1x (p0x p0y p1x p1y p2x p2y t : K) : K :=
   ((p0x * ((1 : K) - t)) + (p1x * t))
 
-def quad_splitAtTime_l1y (p0x p0y p1x p1y p2x p2y t : K) : K :=
+@[gen_def] def quad_splitAtTime_l1y (p0x p0y p1x p1y p2x p2y t : K) : K :=
   ((p0y * ((1 : K) - t)) + (p1y * t))
 
-def quad_splitAtTime_l2x (p0x p0y p1x p1y p2x p2y t : K) : K :=
+@[gen_def] def quad_splitAtTime_l2x (p0x p0y p1x p1y p2x p2y t : K) : K :=
   let v0 := ((1 : K) - t)
   ((((p0x * v0) + (p1x * t)) * v0) + (((p1x * v0) + (p2x * t)) * t))
 
-def quad_splitAtTime_l2y (p0x p0y p1x p1y p2x p2y t : K) : K :=
+@[gen_def] def quad_splitAtTime_l2y (p0x p0y p1x p1y p2x p2y t : K) : K :=
   let v0 := ((1 : K) - t)
   ((((p0y * v0) + (p1y * t)) * v0) + (((p1y * v0) + (p2y * t)) * t))
 
-def quad_splitAtTime_r0x (p0x p0y p1x p1y p2x p2y t : K) : K :=
+@[gen_def] def quad_splitAtTime_r0x (p0x p0y p1x p1y p2x p2y t : K) : K :=
   let v0 := ((1 : K) - t)
   ((((p0x * v0) + (p1x * t)) * v0) + (((p1x * v0) + (p2x * t)) * t))
 
-def quad_splitAtTime_r0y (p0x p0y p1x p1y p2x p2y t : K) : K :=
+@[gen_def] def quad_splitAtTime_r0y (p0x p0y p1x p1y p2x p2y t : K) : K :=
   let v0 := ((1 : K) - t)
   ((((p0y * v0) + (p1y * t)) * v0) + (((p1y * v0) + (p2y * t)) * t))
 
-def quad_splitAtTime_r1x (p0x p0y p1x p1y p2x p2y t : K) : K :=
+@[gen_def] def quad_splitAtTime_r1x (p0x p0y p1x p1y p2x p2y t : K) : K :=
   ((p1x * ((1 : K) - t)) + (p2x * t))
 
-def quad_splitAtTime_r1y (p0x p0y p1x p1y p2x p2y t : K) : K :=
+@[gen_def] def quad_splitAtTime_r1y (p0x p0y p1x p1y p2x p2y t : K) : K :=
   ((p1y * ((1 : K) - t)) + (p2y * t))
 
-def quad_splitAtTime_r2x (p0x p0y p1x p1y p2x p2y t : K) : K :=
+@[gen_def] def quad_splitAtTime_r2x (p0x p0y p1x p1y p2x p2y t : K) : K :=
   p2x
 
-def quad_splitAtTime_r2y (p0x p0y p1x p1y p2x p2y t : K) : K :=
+@[gen_def] def quad_splitAtTime_r2y (p0x p0y p1x p1y p2x p2y t : K) : K :=
   p2y
 
-def quad_splitAtTime (p0x p0y p1x p1y p2x p2y t : K) : List K :=
+@[gen_def] def quad_splitAtTime (p0x p0y p1x p1y p2x p2y t : K) : List K :=
   [quad_splitAtTime_l0x p0x p0y p1x p1y p2x p2y t, quad_splitAtTime_l0y p0x p0y p1x p1y p2x p2y t, quad_splitAtTime_l1x p0x p0y p1x p1y p2x p2y t, quad_splitAtTime_l1y p0x p0y p1x p1y p2x p2y t, quad_splitAtTime_l2x p0x p0y p1x p1y p2x p2y t, quad_splitAtTime_l2y p0x p0y p1x p1y p2x p2y t, quad_splitAtTime_r0x p0x p0y p1x p1y p2x p2y t, quad_splitAtTime_r0y p0x p0y p1x p1y p2x p2y t, quad_splitAtTime_r1x p0x p0y p1x p1y p2x p2y t, quad_splitAtTime_r1y p0x p0y p1x p1y p2x p2y t, quad_splitAtTime_r2x p0x p0y p1x p1y p2x p2y t, quad_splitAtTime_r2y p0x p0y p1x p1y p2x p2y t]
 
 
 /-- CubicBezier.splitAtTime -/
 
-def cubic_splitAtTime_l0x (p0x p0y p1x p1y p2x p2y p3x p3y t : K) : K :=
+@[gen_def] def cubic_splitAtTime_l0x (p0x p0y p1x p1y p2x p2y p3x p3y t : K) : K :=
   p0x
 
-def cubic_splitAtTime_l0y (p0x p0y p1x p1y p2x p2y p3x p3y t : K) : K :=
+@[gen_def] def cubic_splitAtTime_l0y (p0x p0y p1x p1y p2x p2y p3x p3y t : K) : K :=
   p0y
 
-def cubic_splitAtTime_l1x (p0x p0y p1x p1y p2x p2y p3x p3y t : K) : K :=
+@[gen_def] def cubic_splitAtTime_l1x (p0x p0y p1x p1y p2x p2y p3x p3y t : K) : K :=
   ((p0x * ((1 : K) - t)) + (p1x * t))
 
-def cubic_splitAtTime_l1y (p0x p0y p1x p1y p2x p2y p3x p3y t : K) : K :=
+@[gen_def] def cubic_splitAtTime_l1y (p0x p0y p1x p1y p2x p2y p3x p3y t : K) : K :=
   ((p0y * ((1 : K) - t)) + (p1y * t))
 
-def cubic_splitAtTime_l2x (p0x p0y p1x p1y p2x p2y p3x p3y t : K) : K :=
+@[gen_def] def cubic_splitAtTime_l2x (p0x p0y p1x p1y p2x p2y p3x p3y t : K) : K :=
   let v0 := ((1 : K) - t)
   ((((p0x * v0) + (p1x * t)) * v0) + (((p1x * v0) + (p2x * t)) * t))
 
-def cubic_splitAtTime_l2y (p0x p0y p1x p1y p2x p2y p3x p3y t : K) : K :=
+@[gen_def] def cubic_splitAtTime_l2y (p0x p0y p1x p1y p2x p2y p3x p3y t : K) : K :=
   let v0 := ((1 : K) - t)
   ((((p0y * v0) + (p1y * t)) * v0) + (((p1y * v0) + (p2y * t)) * t))
 
-def cubic_splitAtTime_l3x (p0x p0y p1x p1y p2x p2y p3x p3y t : K) : K :=
+@[gen_def] def cubic_splitAtTime_l3x (p0x p0y p1x p1y p2x p2y p3x p3y t : K) : K :=
   let v0 := ((1 : K) - t)
   let v1 := ((p1x * v0) + (p2x * t))
   ((((((p0x * v0) + (p1x * t)) * v0) + (v1 * t)) * v0) + (((v1 * v0) + (((p2x * v0) + (p3x * t)) * t)) * t))
 
-def cubic_splitAtTime_l3y (p0x p0y p1x p1y p2x p2y p3x p3y t : K) : K :=
+@[gen_def] def cubic_splitAtTime_l3y (p0x p0y p1x p1y p2x p2y p3x p3y t : K) : K :=
   let v0 := ((1 : K) - t)
   let v1 := ((p1y * v0) + (p2y * t))
   ((((((p0y * v0) + (p1y * t)) * v0) + (v1 * t)) * v0) + (((v1 * v0) + (((p2y * v0) + (p3y * t)) * t)) * t))
 
-def cubic_splitAtTime_r0x (p0x p0y p1x p1y p2x p2y p3x p3y t : K) : K :=
+@[gen_def] def cubic_splitAtTime_r0x (p0x p0y p1x p1y p2x p2y p3x p3y t : K) : K :=
   let v0 := ((1 : K) - t)
   let v1 := ((p1x * v0) + (p2x * t))
   ((((((p0x * v0) + (p1x * t)) * v0) + (v1 * t)) * v0) + (((v1 * v0) + (((p2x * v0) + (p3x * t)) * t)) * t))
 
-def cubic_splitAtTime_r0y (p0x p0y p1x p1y p2x p2y p3x p3y t : K) : K :=
+@[gen_def] def cubic_splitAtTime_r0y (p0x p0y p1x p1y p2x p2y p3x p3y t : K) : K :=
   let v0 := ((1 : K) - t)
   let v1 := ((p1y * v0) + (p2y * t))
   ((((((p0y * v0) + (p1y * t)) * v0) + (v1 * t)) * v0) + (((v1 * v0) + (((p2y * v0) + (p3y * t)) * t)) * t))
 
-def cubic_splitAtTime_r1x (p0x p0y p1x p1y p2x p2y p3x p3y t : K) : K :=
+@[gen_def] def cubic_splitAtTime_r1x (p0x p0y p1x p1y p2x p2y p3x p3y t : K) : K :=
   let v0 := ((1 : K) - t)
   ((((p1x * v0) + (p2x * t)) * v0) + (((p2x * v0) + (p3x * t)) * t))
 
-def cubic_splitAtTime_r1y (p0x p0y p1x p1y p2x p2y p3x p3y t : K) : K :=
+@[gen_def] def cubic_splitAtTime_r1y (p0x p0y p1x p1y p2x p2y p3x p3y t : K) : K :=
   let v0 := ((1 : K) - t)
   ((((p1y * v0) + (p2y * t)) * v0) + (((p2y * v0) + (p3y * t)) * t))
 
-def cubic_splitAtTime_r2x (p0x p0y p1x p1y p2x p2y p3x p3y t : K) : K :=
+@[gen_def] def cubic_splitAtTime_r2x (p0x p0y p1x p1y p2x p2y p3x p3y t : K) : K :=
   ((p2x * ((1 : K) - t)) + (p3x * t))
 
-def cubic_splitAtTime_r2y (p0x p0y p1x p1y p2x p2y p3x p3y t : K) : K :=
+@[gen_def] def cubic_splitAtTime_r2y (p0x p0y p1x p1y p2x p2y p3x p3y t : K) : K :=
   ((p2y * ((1 : K) - t)) + (p3y * t))
 
-def cubic_splitAtTime_r3x (p0x p0y p1x p1y p2x p2y p3x p3y t : K) : K :=
+@[gen_def] def cubic_splitAtTime_r3x (p0x p0y p1x p1y p2x p2y p3x p3y t : K) : K :=
   p3x
 
-def cubic_splitAtTime_r3y (p0x p0y p1x p1y p2x p2y p3x p3y t : K) : K :=
+@[gen_def] def cubic_splitAtTime_r3y (p0x p0y p1x p1y p2x p2y p3x p3y t : K) : K :=
   p3y
 
-def cubic_splitAtTime (p0x p0y p1x p1y p2x p2y p3x p3y t : K) : List K :=
+@[gen_def] def cubic_splitAtTime (p0x p0y p1x p1y p2x p2y p3x p3y t : K) : List K :=
   [cubic_splitAtTime_l0x p0x p0y p1x p1y p2x p2y p3x p3y t, cubic_splitAtTime_l0y p0x p0y p1x p1y p2x p2y p3x p3y t, cubic_splitAtTime_l1x p0x p0y p1x p1y p2x p2y p3x p3y t, cubic_splitAtTime_l1y p0x p0y p1x p1y p2x p2y p3x p3y t, cubic_splitAtTime_l2x p0x p0y p1x p1y p2x p2y p3x p3y t, cubic_splitAtTime_l2y p0x p0y p1x p1y p2x p2y p3x p3y t, cubic_splitAtTime_l3x p0x p0y p1x p1y p2x p2y p3x p3y t, cubic_splitAtTime_l3y p0x p0y p1x p1y p2x p2y p3x p3y t, cubic_splitAtTime_r0x p0x p0y p1x p1y p2x p2y p3x p3y t, cubic_splitAtTime_r0y p0x p0y p1x p1y p2x p2y p3x p3y t, cubic_splitAtTime_r1x p0x p0y p1x p1y p2x p2y p3x p3y t, cubic_splitAtTime_r1y p0x p0y p1x p1y p2x p2y p3x p3y t, cubic_splitAtTime_r2x p0x p0y p1x p1y p2x p2y p3x p3y t, cubic_splitAtTime_r2y p0x p0y p1x p1y p2x p2y p3x p3y t, cubic_splitAtTime_r3x p0x p0y p1x p1y p2x p2y p3x p3y t, cubic_splitAtTime_r3y p0x p0y p1x p1y p2x p2y p3x p3y t]
 
 
 /-- QuadraticBezier.derivative (a Line) -/
 
-def quad_derivative_d0x (p0x p0y p1x p1y p2x p2y : K) : K :=
+@[gen_def] def quad_derivative_d0x (p0x p0y p1x p1y p2x p2y : K) : K :=
   ((p1x - p0x) * (2 : K))
 
-def quad_derivative_d0y (p0x p0y p1x p1y p2x p2y : K) : K :=
+@[gen_def] def quad_derivative_d0y (p0x p0y p1x p1y p2x p2y : K) : K :=
   ((p1y - p0y) * (2 : K))
 
-def quad_derivative_d1x (p0x p0y p1x p1y p2x p2y : K) : K :=
+@[gen_def] def quad_derivative_d1x (p0x p0y p1x p1y p2x p2y : K) : K :=
   ((p2x - p1x) * (2 : K))
 
-def quad_derivative_d1y (p0x p0y p1x p1y p2x p2y : K) : K :=
+@[gen_def] def quad_derivative_d1y (p0x p0y p1x p1y p2x p2y : K) : K :=
   ((p2y - p1y) * (2 : K))
 
-def quad_derivative (p0x p0y p1x p1y p2x p2y : K) : List K :=
+@[gen_def] def quad_derivative (p0x p0y p1x p1y p2x p2y : K) : List K :=
   [quad_derivative_d0x p0x p0y p1x p1y p2x p2y, quad_derivative_d0y p0x p0y p1x p1y p2x p2y, quad_derivative_d1x p0x p0y p1x p1y p2x p2y, quad_derivative_d1y p0x p0y p1x p1y p2x p2y]
 
 
 /-- CubicBezier.derivative (a QuadraticBezier) -/
 
-def cubic_derivative_d0x (p0x p0y p1x p1y p2x p2y p3x p3y : K) : K :=
+@[gen_def] def cubic_derivative_d0x (p0x p0y p1x p1y p2x p2y p3x p3y : K) : K :=
   ((p1x - p0x) * (3 : K))
 
-def cubic_derivative_d0y (p0x p0y p1x p1y p2x p2y p3x p3y : K) : K :=
+@[gen_def] def cubic_derivative_d0y (p0x p0y p1x p1y p2x p2y p3x p3y : K) : K :=
   ((p1y - p0y) * (3 : K))
 
-def cubic_derivative_d1x (p0x p0y p1x p1y p2x p2y p3x p3y : K) : K :=
+@[gen_def] def cubic_derivative_d1x (p0x p0y p1x p1y p2x p2y p3x p3y : K) : K :=
   ((p2x - p1x) * (3 : K))
 
-def cubic_derivative_d1y (p0x p0y p1x p1y p2x p2y p3x p3y : K) : K :=
+@[gen_def] def cubic_derivative_d1y (p0x p0y p1x p1y p2x p2y p3x p3y : K) : K :=
   ((p2y - p1y) * (3 : K))
 
-def cubic_derivative_d2x (p0x p0y p1x p1y p2x p2y p3x p3y : K) : K :=
+@[gen_def] def cubic_derivative_d2x (p0x p0y p1x p1y p2x p2y p3x p3y : K) : K :=
   ((p3x - p2x) * (3 : K))
 
-def cubic_derivative_d2y (p0x p0y p1x p1y p2x p2y p3x p3y : K) : K :=
+@[gen_def] def cubic_derivative_d2y (p0x p0y p1x p1y p2x p2y p3x p3y : K) : K :=
   ((p3y - p2y) * (3 : K))
 
-def cubic_derivative (p0x p0y p1x p1y p2x p2y p3x p3y : K) : List K :=
+@[gen_def] def cubic_derivative (p0x p0y p1x p1y p2x p2y p3x p3y : K) : List K :=
   [cubic_derivative_d0x p0x p0y p1x p1y p2x p2y p3x p3y, cubic_derivative_d0y p0x p0y p1x p1y p2x p2y p3x p3y, cubic_derivative_d1x p0x p0y p1x p1y p2x p2y p3x p3y, cubic_derivative_d1y p0x p0y p1x p1y p2x p2y p3x p3y, cubic_derivative_d2x p0x p0y p1x p1y p2x p2y p3x p3y, cubic_derivative_d2y p0x p0y p1x p1y p2x p2y p3x p3y]
 
 
